@@ -155,7 +155,54 @@ def expand(desc, r):
     return out
 
 
-def random_desc(rng, npk=3, nalg=6, feedback=True):
+ALG_POOLS = [['a', 'a1', 'a10', 'a11', 'a1x', 'a2', 'a20', 'ab', 'a_', 'a1_0', 'a100', 'b'],
+             ['fit', 'fit2', 'fitter', 'fi', 'cal', 'calib', 'cal2', 'c', 'sum', 'summary', 'su', 'f']]
+PKG_POOLS = [['p', 'p1', 'p10'], ['net', 'net2', 'ne'], ['q', 'qq', 'q0']]
+
+
+def confuse(desc, rng):
+    '''rename packages and algorithms (a bijection, applied to declarations and
+    references alike) so that names are proper prefixes of one another
+    (a1 / a10, fit / fit2 / fitter, p1 / p10): code that matches names by
+    prefix or by substring instead of by element behaves differently.'''
+    algs = sorted({a['name'] for kinds in desc['pkgs'].values() for al in kinds.values() for a in al})
+    pkgs = sorted(desc['pkgs'])
+    apool = list(rng.choice(ALG_POOLS))
+    ppool = list(rng.choice(PKG_POOLS))
+    if len(algs) > len(apool) or len(pkgs) > len(ppool):
+        return desc
+    rng.shuffle(apool)
+    rng.shuffle(ppool)
+    am = dict(zip(algs, apool))
+    pm = dict(zip(pkgs, ppool))
+
+    def ref(r):
+        r = list(r)
+        r[1] = pm.get(r[1], r[1])
+        r[3] = am.get(r[3], r[3])
+        return tuple(r) if isinstance(r, tuple) else r
+
+    out = {}
+    for p, kinds in desc['pkgs'].items():
+        nk = {}
+        for k, al in kinds.items():
+            nk[k] = [dict(a, name=am[a['name']], deps=[ref(tuple(d)) for d in a['deps']],
+                          fb=[ref(tuple(d)) for d in a['fb']]) for a in al]
+        out[pm[p]] = nk
+    return {'pkgs': out}
+
+
+def random_desc(rng, npk=3, nalg=6, feedback=True, confusable=0.5):
+    d = _random_desc(rng, npk, nalg, feedback)
+    return confuse(d, rng) if rng.random() < confusable else d
+
+
+def fan_desc(rng, feedback=True, confusable=0.5):
+    d = _fan_desc(rng, feedback)
+    return confuse(d, rng) if rng.random() < confusable else d
+
+
+def _random_desc(rng, npk=3, nalg=6, feedback=True):
     '''acyclic random engine: algorithm i may depend only on algorithms < i'''
     pkgs = {f'p{i}': {} for i in range(rng.randint(1, npk))}
     order = []
@@ -179,7 +226,7 @@ def random_desc(rng, npk=3, nalg=6, feedback=True):
     return {'pkgs': {k: v for k, v in pkgs.items() if v}}
 
 
-def fan_desc(rng, feedback=True):
+def _fan_desc(rng, feedback=True):
     '''engines with fan-out at value level: a root with several state vectors and
     values, children that each read a different part of it (value / sv / alg level),
     grandchildren, an analysis at the bottom, optionally a feedback loop.'''
